@@ -112,3 +112,38 @@ func countByte(s string, c byte) int {
 	}
 	return n
 }
+
+// H_C15tok checks the agreement of Parse with the semicolon tokens on every sequence of k tokens.
+func H_C15tok(k, vocab int) {
+	src := verif.Tokens(k, Vocab(vocab))
+	toks := parser.Scan(src)
+	parts := parser.SplitStatements(src)
+	nsemi, nonEmpty, cur := 0, 0, 0
+	for _, t := range toks {
+		if t.Kind == parser.TokenSemi {
+			nsemi++
+			if cur > 0 {
+				nonEmpty++
+			}
+			cur = 0
+		} else {
+			cur++
+		}
+	}
+	if cur > 0 {
+		nonEmpty++
+	}
+	verif.Assert(len(parts) == nsemi+1, "number of pieces is not one more than the number of semicolon tokens")
+	stmts, err := parser.Parse(src)
+	if err == nil {
+		verif.Cover("parsed")
+		verif.Assert(len(stmts) == nonEmpty, "Parse statement count differs from the number of non-empty pieces")
+	} else {
+		verif.Cover("rejected")
+		// a failed parse still reports at most one statement per non-empty piece
+		verif.Assert(len(stmts) <= nonEmpty, "Parse reports more statements than there are non-empty pieces")
+	}
+	if nsemi > 0 {
+		verif.Cover("has-semicolon-token")
+	}
+}
